@@ -20,7 +20,7 @@ import weakref
 from .seqlib import exc_name
 
 NAMES = ["value", "mate", "child", "kids", "byname", "group", "trait_added", "trait_modified",
-         "extra", "xchild", "items", "nosuch", "ichild", "nchild"]
+         "extra", "xchild", "items", "nosuch", "ichild", "nchild", "tkids"]
 NONE_ID = 99
 INT_FIELDS = ("value", "extra")
 
@@ -28,6 +28,9 @@ _INDEX = {}      # id(pool object) -> pool index (also its hash)
 _DEFAULT = {}    # id(pool object) -> weakref of the object its `child` default returns
 _EQ = {}         # id(pool object) -> `==` class (a == b iff same class; also the hash)
 CMP_MODE = {"ichild": "identity", "nchild": "none"}     # every other trait: equality
+# `addt o name code`: the metadata given to the added trait; "+tag" matches iff it is not None
+TAG_CODES = {0: {}, 1: {"tag": True}, 2: {"tag": False}, 3: {"tag": 0}, 4: {"tag": ""}, 5: {"tag": "x"},
+             6: {"tag": None}}
 _NODE = []
 
 
@@ -45,6 +48,12 @@ def node_class():
         group = Set(Instance(HasTraits))
         ichild = Instance(HasTraits, comparison_mode=ComparisonMode.identity)
         nchild = Instance(HasTraits, comparison_mode=ComparisonMode.none)
+        # metadata DEFINED with a falsy value: "+tag" matches every trait whose metadata is not None
+        tkids = List(Instance(HasTraits), tag=False)
+
+        def _mate_default(self):
+            r = _DEFAULT.get(id(self))
+            return None if r is None else r()
 
         def _child_default(self):
             r = _DEFAULT.get(id(self))
@@ -196,6 +205,23 @@ class Recorder:
         self.sink.append((self.hid, event))
 
 
+class Queue:
+    """A custom dispatcher object; `queue.dispatch` is a NEW (equal, not identical) bound
+    method at every access."""
+
+    def __init__(self):
+        self.dispatched = 0
+
+    def dispatch(self, handler, event):
+        self.dispatched += 1
+        handler(event)
+
+
+def base(hid):
+    """Handler key 10 + h = handler h registered with the queue dispatcher."""
+    return hid % 10
+
+
 class World:
     def __init__(self, n, dflts, classes=None):
         _INDEX.clear()
@@ -218,6 +244,7 @@ class World:
         self.sink = []
         self.recorders = {}
         self.dead = set()
+        self.queue = Queue()
         self.seen = {}          # id(notifier) -> (notifier, hid)
         self.tmp_id = None
         self.declared = []
@@ -247,6 +274,7 @@ class World:
         return None if ident == NONE_ID else self.objs[ident]
 
     def handler(self, hid):
+        hid = base(hid)
         if hid not in self.recorders:
             self.recorders[hid] = Recorder(hid, self.sink)
         return self.recorders[hid].on_event
@@ -334,6 +362,8 @@ class World:
             self.seen[id(nt)] = (nt, hid)
         else:
             hid = self.seen.get(id(nt), (None, -1))[1]
+        if getattr(nt.dispatcher, "__self__", None) is self.queue:
+            hid += 10
         tgt = nt.target()
         tid = self.ident(tgt) if tgt is not None else -1
         if isinstance(nt, TraitEventNotifier):
@@ -520,10 +550,10 @@ class Runner:
     # ------------------------------------------------------------------ ops
     @staticmethod
     def default_of(o, name):
-        if name == "child":
+        if name in ("child", "mate"):
             r = _DEFAULT.get(id(o))
             return None if r is None else r()
-        return {"value": 0, "extra": 0, "kids": [], "byname": {}, "group": set()}.get(name)
+        return {"value": 0, "extra": 0, "kids": [], "tkids": [], "byname": {}, "group": set()}.get(name)
 
     def container(self, ident, cls):
         x = self.w.objs.get(ident)
@@ -552,7 +582,7 @@ class Runner:
                 cur = o.__dict__.get(name)
                 if name in o.__dict__:
                     olds = [cur] if cur is not None else []
-                elif name == "child" and _DEFAULT.get(id(o)) is not None:
+                elif name in ("child", "mate") and _DEFAULT.get(id(o)) is not None:
                     olds = [_DEFAULT[id(o)]()] if k != "get" else []
                     if k == "get":
                         news = [_DEFAULT[id(o)]()]
@@ -668,7 +698,7 @@ class Runner:
                 w.tmp_id = int(p[3]) + 1
             t = o._trait(name, 0)
             hooked = bool(t is not None and t._notifiers(False))
-            if was_unset and hooked and name == "child" and _DEFAULT.get(id(o)) is not None:
+            if was_unset and hooked and name in ("child", "mate") and _DEFAULT.get(id(o)) is not None:
                 # setattr_trait evaluates the default as the old value; its subtree is
                 # "removed" although it was never hooked through this link
                 self.shadow_default = True
@@ -696,7 +726,7 @@ class Runner:
         if k == "addt":
             o = w.pool[int(p[1])]
             name = p[2]
-            md = {"tag": True} if p[3] == "1" else {}
+            md = TAG_CODES[int(p[3])]
             o.add_trait(name, Int(**md) if name == "extra" else Instance(HasTraits, **md))
             return
         if k in ("la", "li", "ld", "ls", "lc", "le", "lsl", "lst"):
@@ -774,7 +804,7 @@ class Runner:
                 self.tags.add("x:quiet")
             if q[0] == "t" and q[3] == "1":
                 self.tags.add("x:optional")
-        if hid in w.dead:
+        if base(hid) in w.dead:
             raise Skip()
         _, before = w.population()
         try:
@@ -783,7 +813,13 @@ class Runner:
             graphs = None
         exc = None
         try:
-            w.pool[root].observe(w.handler(hid), real_expr(ast), remove=rm)
+            if hid >= 10:
+                # through the functional API with a custom, equal-but-not-identical dispatcher
+                from traits.observation.api import observe as api_observe
+                api_observe(w.pool[root], real_expr(ast), w.handler(hid), remove=rm,
+                            dispatcher=w.queue.dispatch)
+            else:
+                w.pool[root].observe(w.handler(hid), real_expr(ast), remove=rm)
         except Exception as e:
             exc = e
         _, after = w.population()
@@ -862,6 +898,15 @@ class Runner:
             if all(by_canon[kc] >= n for kc, n in collections.Counter(keys).items()):
                 self.hits09.append(_hit("registered-removal-raised:" + exc_name(exc),
                                         "unregistering an active registration raised", op=op))
+        if rm and walk_ok and exc_name(exc) != "NotifierNotFound" and not self.tainted and not self.selfreach \
+                and not self.shadow_default:
+            by_canon = collections.Counter()
+            for kk, n in self.ledger.items():
+                by_canon[(kk[0], kk[1], canon(kk[2]))] += n
+            if not all(by_canon[kc] >= n for kc, n in collections.Counter(keys).items()):
+                self.hits09.append(_hit("unregistered-removal-raised:" + exc_name(exc),
+                                        "unregistering something that is not (fully) registered raised %s, not "
+                                        "NotifierNotFound" % exc_name(exc), op=op))
         if rm and walk_ok and exc_name(exc) == "NotifierNotFound" and not self.tainted and not self.selfreach and not self.shadow_default:
             by_canon = collections.Counter()
             for kk, n in self.ledger.items():
@@ -945,8 +990,8 @@ class Runner:
                     got = collections.Counter(h for h, _ in evs)
                     want = collections.Counter()
                     for k, n in spec.items():
-                        if k[0] == ob and k[1] == "u" and n > 0 and k[2] not in w.dead:
-                            want[k[2]] += 1
+                        if k[0] == ob and k[1] == "u" and n > 0 and base(k[2]) not in w.dead:
+                            want[base(k[2])] += 1
                     if got != want:
                         self.reach_hit("fires-iff-reachable", "bump of %d.%s: handler calls %s, reachable for %s" % (
                             i, name, dict(got), dict(want)))
@@ -978,8 +1023,8 @@ class Runner:
                 got = collections.Counter(h for h, _ in evs)
                 want = collections.Counter()
                 for k, n in spec.items():
-                    if k[0] == ("t", i, name) and k[1] == "u" and n > 0 and k[2] not in w.dead:
-                        want[k[2]] += 1
+                    if k[0] == ("t", i, name) and k[1] == "u" and n > 0 and base(k[2]) not in w.dead:
+                        want[base(k[2])] += 1
                 if got != want:
                     self.hits08.append(_hit("gc:calls-after-collection", "bump of %d.%s: handler calls %s, expected %s" % (
                         i, name, dict(got), dict(want))))
@@ -1010,7 +1055,7 @@ class Runner:
         def live(c):
             # hooks of a collected handler are no longer maintained (nor ever called)
             return collections.Counter({k: n for k, n in c.items()
-                                        if (k[2] if k[1] == "u" else k[3]) not in dead and n > 0})
+                                        if base(k[2] if k[1] == "u" else k[3]) not in dead and n > 0})
         spec = live(self.w.spec_population(self.ledger))
         pop = live(pop)
         if spec != pop:
@@ -1030,8 +1075,8 @@ class Runner:
         ob = pre["target"]
         want = collections.Counter()
         for k, n in self.pre_spec.items():
-            if k[0] == ob and k[1] == "u" and n > 0 and k[2] not in self.w.dead:
-                want[k[2]] += 1
+            if k[0] == ob and k[1] == "u" and n > 0 and base(k[2]) not in self.w.dead:
+                want[base(k[2])] += 1
         got = collections.Counter(h for h, _ in evs)
         p = op.split()
         changed = True
@@ -1177,8 +1222,10 @@ def gen_link(rng):
         return t(rng.choice(["ichild", "nchild"]), n)
     if r < 0.40:
         return t("mate", n)
-    if r < 0.55:
+    if r < 0.51:
         return seq(t("kids", n), ("li", n2, False))
+    if r < 0.55:
+        return seq(t("tkids", n), ("li", n2, False))
     if r < 0.63:
         return seq(t("byname", n), ("di", n2, False))
     if r < 0.71:
@@ -1306,16 +1353,20 @@ class Gen:
                 if r.random() < 0.35 and its:
                     its = its + [r.choice(its)]          # repeated items
                 self.lists[c] = list(its)
-                return "setl %d kids %d %s" % (o, c, show_ids(its))
+                f = "tkids" if r.random() < 0.2 else "kids"
+                if f == "tkids":
+                    self.attached.pop((o, "kids"), None)
+                    self.attached[(o, "tkids")] = c
+                return "setl %d %s %d %s" % (o, f, c, show_ids(its))
             if kind == "d":
                 ks = r.sample([0, 1, 2], r.randint(0, 3))
                 return "setd %d byname %d %s" % (o, c, show_kvs([(k, self.item()) for k in ks]))
             return "sets %d group %d %s" % (o, c, show_ids(sorted(set(i for i in self.items() if i != NONE_ID))))
         if x < 0.40:
-            f = r.choice(["kids", "byname", "child", "mate", "value"] if self.no_sets else
-                         ["kids", "byname", "group", "child", "mate", "value"])
+            f = r.choice(["kids", "tkids", "byname", "child", "mate", "value"] if self.no_sets else
+                         ["kids", "tkids", "byname", "group", "child", "mate", "value"])
             c = self.fresh()
-            kind = {"kids": "l", "byname": "d", "group": "s"}.get(f)
+            kind = {"kids": "l", "tkids": "l", "byname": "d", "group": "s"}.get(f)
             if kind and (o, f) not in self.attached:
                 self.conts[c] = kind
                 self.attached[(o, f)] = c
@@ -1325,7 +1376,7 @@ class Gen:
             self.added.add((o, name))
             # re-adding an existing trait keeps its metadata (replacing a trait by one with
             # different metadata fires no trait_added and is outside the statement)
-            tag = self.tagof.setdefault((o, name), int(r.random() < 0.4))
+            tag = self.tagof.setdefault((o, name), r.choice([0, 0, 0, 1, 1, 2, 3, 4, 5, 6]))
             return "addt %d %s %d" % (o, name, tag)
         if x < 0.50 and self.added:
             o2, name = r.choice(sorted(self.added))
@@ -1519,6 +1570,8 @@ def history_c09(rng, maxops=12, gc_case=False):
         x = rng.random()
         if x < 0.30 or not active and x < 0.5:
             hid = rng.choice([h for h in (0, 1) if h not in killed] or [2])
+            if rng.random() < 0.3:
+                hid += 10          # the same handler through api.observe(dispatcher=queue.dispatch)
             root = 0 if rng.random() < 0.7 else g.obj()
             i = rng.randrange(len(exprs))
             reps = rng.choice([1, 1, 1, 2, 3])
@@ -1527,13 +1580,13 @@ def history_c09(rng, maxops=12, gc_case=False):
                 active.append((hid, root, i))
         elif x < 0.52 and active:
             hid, root, i = active.pop(rng.randrange(len(active)))
-            if hid in killed:
+            if hid % 10 in killed:
                 continue
             g.ops.append("unobs %d %d %s" % (hid, root, " ".join(rpn_of(exprs[i]))))
         elif x < 0.58:
             # one removal too many / never registered
-            hid = rng.choice([0, 1])
-            if hid in killed or any(a[0] == hid for a in active):
+            hid = rng.choice([0, 1, 10, 11])
+            if hid % 10 in killed or any(a[0] == hid for a in active):
                 continue
             g.ops.append("unobs %d %d %s" % (hid, 0, " ".join(rpn_of(rng.choice(exprs)))))
         elif x < 0.68:
@@ -1798,3 +1851,142 @@ def history_mult(rng, maxops=12, c09=False):
             if g.attached.get((root, "kids")) != c:
                 break
     return header(g, gen_dflts(rng, n)) + ";".join(g.ops[:maxops + 2])
+
+
+def history_failrm(rng, maxops=12):
+    """Register / unregister / re-register histories with equal-but-not-identical dispatchers
+    and FAILING removals: an expression list (parallel at top level) of which a later part
+    was never registered, on nodes with several observables (`*`, `+tag`), also below a link.
+    The removal must raise NotifierNotFound, leave every population as before, and
+    everything registered must still fire exactly once (all probed after every op)."""
+    g = Gen(rng)
+    n = g.n
+    root = 0
+    hid = rng.choice([0, 1, 10, 11, 10])
+
+    def addt(o, name):
+        g.added.add((o, name))
+        g.tagof[(o, name)] = 1          # later re-adds keep the metadata
+        return "addt %d %s 1" % (o, name)
+    g.ops.append(addt(root, "extra"))
+    if rng.random() < 0.6:
+        g.ops.append("set %d child %d" % (root, rng.randrange(1, n)))
+        g.ops.append(addt(rng.randrange(1, n), "extra"))
+    if rng.random() < 0.5:
+        g.ops.append("set %d mate %d" % (root, rng.randrange(n)))
+    wide = rng.choice([("any", True), ("meta", True), ("any", True), seq(t("child"), ("any", True)),
+                       seq(t("child", False), ("meta", True)), seq(("meta", True), t("value")),
+                       par(("any", True), seq(t("child"), t("value")))])
+    never = rng.choice([t("value"), seq(t("child"), t("value")), t("mate"), seq(t("kids"), ("li", True, False)),
+                        t("nchild"), ("meta", False), seq(t("child"), t("ichild"))])
+    if set(map(canon, compile_ast(wide))) & set(map(canon, compile_ast(never))):
+        never = seq(t("child", False), t("nchild", False))
+    ws, bs = " ".join(rpn_of(wide)), " ".join(rpn_of(par(wide, never)))
+    reps = rng.choice([1, 1, 1, 2])
+    for _ in range(reps):
+        g.ops.append("obs %d %d %s" % (hid, root, ws))
+    other = (hid + 10) % 20 if rng.random() < 0.5 else (hid + 1) % 2 + 10 * (hid // 10)
+    if rng.random() < 0.4:
+        g.ops.append("obs %d %d %s" % (other, root, ws))
+    plan = ["unobs %d %d %s" % (hid, root, bs)]               # fails at the part never registered
+    plan.append(g.mutation() if rng.random() < 0.5 else addt(root, "xchild"))
+    if rng.random() < 0.5:
+        plan.append("unobs %d %d %s" % (other, root, ws) if rng.random() < 0.5 else
+                    "unobs %d %d %s" % (hid, root, " ".join(rpn_of(par(never, wide)))))
+    for _ in range(reps):
+        plan.append("unobs %d %d %s" % (hid, root, ws))         # the matching removals succeed
+    plan.append("unobs %d %d %s" % (hid, root, ws))             # one too many
+    if rng.random() < 0.5:
+        plan += ["obs %d %d %s" % (hid, root, ws), "unobs %d %d %s" % (hid, root, bs),
+                 "unobs %d %d %s" % (hid, root, ws)]
+    for o in plan:
+        g.ops.append(o)
+        if rng.random() < 0.25:
+            g.ops.append(g.mutation())
+    return header(g, gen_dflts(rng, n)) + ";".join(g.ops[:maxops + 4])
+
+
+def history_filt(rng, maxops=12):
+    """Filtered links (`+tag`, `*`) in NON-terminal position over traits whose defaults
+    (dynamic Instance default of mate / child, the List default of tkids) are materialised
+    only after observe(); then changes below; equal-but-distinct list reassignment below a
+    filtered link; traits added with metadata True / False / 0 / "" / "x" / None / absent."""
+    g = Gen(rng)
+    n = g.n
+    root = 0
+    d = rng.randrange(1, n)
+    dflts = ["N"] * n
+    if rng.random() < 0.8:
+        dflts[root] = str(d)
+    if rng.random() < 0.3:
+        dflts[d] = str(rng.randrange(n))
+    nf, n2 = rng.random() < 0.7, rng.random() < 0.8
+    filt = rng.choice([("meta", nf), ("meta", nf), ("any", nf)])
+    opt = filt[0] == "any"          # `*` also yields ints: what follows must be optional
+    below = rng.choice([
+        t("value", True, opt),
+        seq(("li", n2, True), t("value", True, opt)),
+        seq(t("child", n2, opt), t("value", True, opt)),
+        seq(filt, t("value", True, opt)),
+        par(t("value", True, opt), seq(("li", n2, True), t("value", True, opt))),
+    ])
+    e = seq(filt, below)
+    if rng.random() < 0.3:
+        e = seq(t("child", rng.random() < 0.7), e)
+        g.ops.append("set %d child %d" % (root, rng.randrange(1, n)))
+        if rng.random() < 0.5:
+            root_of_filter = None
+    es = " ".join(rpn_of(e))
+    pre = rng.randint(0, 2)
+    for _ in range(pre):
+        g.ops.append(g.mutation())
+    g.ops.append("obs 0 %d %s" % (root, es))
+    if rng.random() < 0.25:
+        g.ops.append("obs 1 %d %s" % (root, es))
+
+    def addt(o, name):
+        code = g.tagof.setdefault((o, name), rng.choice([1, 2, 3, 4, 5, 6, 0]))
+        g.added.add((o, name))
+        return "addt %d %s %d" % (o, name, code)
+    total = rng.randint(5, maxops)
+    while len(g.ops) < total:
+        x = rng.random()
+        o = root if rng.random() < 0.6 else rng.randrange(n)
+        if x < 0.22:
+            f = rng.choice(["mate", "child", "tkids", "tkids", "kids"])
+            c = g.fresh()
+            if f in ("tkids", "kids") and (o, f) not in g.attached:
+                g.conts[c] = "l"
+                g.attached[(o, f)] = c
+                g.lists[c] = []
+            g.ops.append("get %d %s %d" % (o, f, c))
+        elif x < 0.36:
+            c = g.attached.get((o, "tkids"))
+            if c is None:
+                continue
+            g.ops.append(rng.choice(["la %d %d" % (c, g.obj()), "la %d %d" % (c, g.obj()), "ld %d 0" % c]))
+            g.lists.pop(c, None)
+        elif x < 0.46:
+            c = g.attached.get((o, "tkids"))
+            c2 = g.fresh()
+            g.conts[c2] = "l"
+            g.attached[(o, "tkids")] = c2
+            its = [g.obj() for _ in range(rng.randint(0, 2))]
+            g.ops.append("setl %d tkids %d %s" % (o, c2, show_ids(its)))
+            if rng.random() < 0.6:                      # the same contents again: an equal, distinct list
+                c3 = g.fresh()
+                g.conts[c3] = "l"
+                g.attached[(o, "tkids")] = c3
+                g.ops.append("setl %d tkids %d %s" % (o, c3, show_ids(its)))
+                g.ops.append("la %d %d" % (c3, g.obj()))
+        elif x < 0.60:
+            name = rng.choice(["xchild", "xchild", "extra", "items"])
+            g.ops.append(addt(o, name))
+            if name != "extra" and rng.random() < 0.7:
+                g.ops.append("set %d %s %d" % (o, name, g.obj()))
+        elif x < 0.72:
+            g.ops.append("set %d %s %s" % (o, rng.choice(["mate", "mate", "child"]),
+                                           "N" if rng.random() < 0.15 else str(g.obj())))
+        else:
+            g.ops.append(g.mutation())
+    return "obs|%d|%s|" % (n, ",".join(dflts)) + ";".join(g.ops[:maxops + 2])
